@@ -2166,6 +2166,37 @@ pub fn lfo_long(r: &mut Rng, _n: usize, out: &mut Vec<String>) {
     }
 }
 
+/// Exhaustive transition coverage of the byte-stream parser and the receiver's dispatch (thorough tier): every parser
+/// state (reached by a status byte, or a status byte and one data byte, after a note has been struck) x every next byte.
+/// Shard `seed % 16` takes the status bytes of one channel nibble; shard 0 also probes the idle state.
+pub fn midi_exh(seed: u64, out: &mut Vec<String>) {
+    let shard = seed % 16;
+    if shard == 0 {
+        for next in 0..256u64 {
+            out.push("midi new 0".into());
+            out.push(format!("byte {}", next));
+            out.push("byte 64".into());
+        }
+    }
+    for s in 0x80..=0xFFu64 {
+        if s % 16 != shard {
+            continue;
+        }
+        for d1 in 0..=128u64 {
+            // listened channel = the status byte's channel for even d1, the next channel for odd d1
+            let c = if d1 % 2 == 0 { s % 16 } else { (s + 1) % 16 };
+            for next in 0..256u64 {
+                out.push(format!("midi new {}", c));
+                push_bytes(out, &[0x90 + c, 60, 100, s]);
+                if d1 < 128 {
+                    push_bytes(out, &[d1]);
+                }
+                push_bytes(out, &[next]);
+            }
+        }
+    }
+}
+
 pub fn glide_long(r: &mut Rng, _n: usize, out: &mut Vec<String>) {
     // one processor held on one input for far longer than a second (the filter stalls short of the input at the f32
     // resolution when sample rate x time is large), then the input moves, or the time is changed with the input held
@@ -2217,6 +2248,7 @@ pub fn stream(name: &str, seed: u64, n: usize) -> Vec<String> {
         "quant_long" => quant_long(&mut r, n, &mut out),
         "lfo_long" => lfo_long(&mut r, n, &mut out),
         "glide_long" => glide_long(&mut r, n, &mut out),
+        "midi_exh" => midi_exh(seed, &mut out),
         "adsr_fine" => adsr_fine(&mut r, n, &mut out),
         "midi_fine" => midi_fine(&mut r, n, &mut out),
         "quant_fine" => quant_fine(&mut r, n, &mut out),
